@@ -304,6 +304,16 @@ def c04(res, scenario) -> list[Violation]:
                                      f"saved runs of {name} != runs taken {runs}", case))
         if "time.pkl" not in files:
             out.append(Violation(f"c04:{tag}:missing-time", "time.pkl missing in saved state", case))
+        elif not final:
+            # the saved clock value is the (frozen) system time of the acknowledgement instant
+            import re as _re
+            m = _re.search(r"'scaled_anchor_time': ([0-9.e+-]+)", files["time.pkl"])
+            frozen = next((e[3] for e in reversed(ev[:idx]) if e[0] == "control" and e[1] == "sysclock"
+                           and e[2] == "try_pause_ret"), None)
+            if m and frozen is not None and float(m.group(1)) != frozen:
+                out.append(Violation(f"c04:{tag}:clock-value",
+                                     f"saved clock value {m.group(1)} differs from the system time "
+                                     f"{frozen!r} at which the pause was acknowledged", case))
     return out
 
 
